@@ -214,10 +214,15 @@ def fragOf (c : Cfg) (frame : Bytes) : Bytes :=
 theorem cont_shape (c : Cfg) (tok : Option Bytes) (st : LinkSt) (wire : Bytes) :
     ∃ st' d, (match c.dec wire with
               | none => some (st, Deliver.nothing)
-              | some l3 => dispatchL3 c st l3 tok) = some (st', d) ∧ st'.store = st.store := by
+              | some l3 => if singleTlv wire then dispatchL3 c st l3 tok else some (st, Deliver.nothing)) = some (st', d) ∧
+      st'.store = st.store := by
   cases c.dec wire with
   | none => exact ⟨_, _, rfl, rfl⟩
-  | some l3 => exact dispatchL3_shape c st l3 tok
+  | some l3 =>
+    simp only
+    split
+    · exact dispatchL3_shape c st l3 tok
+    · exact ⟨_, _, rfl, rfl⟩
 
 /-- `handleFrame` always returns a state; its store is the old store or the store produced by one
     `reassemble` call on the frame's Fragment field. -/
@@ -233,8 +238,11 @@ theorem handleFrame_shape (c : Cfg) (st : LinkSt) (frame : Bytes) :
     simp only
     cases hlp : l2.lp with
     | none =>
-      obtain ⟨st', d, h, hs⟩ := dispatchL3_shape c st l2 none
-      exact ⟨st', d, h, Or.inl hs⟩
+      simp only
+      split
+      · obtain ⟨st', d, h, hs⟩ := dispatchL3_shape c st l2 none
+        exact ⟨st', d, h, Or.inl hs⟩
+      · exact ⟨_, _, rfl, Or.inl rfl⟩
     | some lp =>
       simp only
       cases hfr : lp.fragment with
